@@ -7,6 +7,7 @@ import (
 	"fmt"
 	"io"
 	"strings"
+	"sync"
 	"time"
 
 	"github.com/tychoish/fun"
@@ -188,6 +189,66 @@ func lockWrappers() []wrapped {
 			w := fun.Transform[int, int](func(context.Context, int) (int, error) { return p.run(), nil }).Lock()
 			return func(ctx context.Context) int { _, _ = w(ctx, 1); return 0 }
 		}},
+	}
+}
+
+// sharedLock: wrappers of DIFFERENT kinds built WithLock over one mutex never
+// run two executions at once; the probe is shared so the gauge sees overlap
+// across wrappers.
+func sharedLock(pairName string, callers int) vs.Scenario {
+	return func() (func(), func(*vs.End) (string, string)) {
+		p := &probe{}
+		body := func() {
+			ctx := context.Background()
+			mu := &sync.Mutex{}
+			var calls []func()
+			add := func(f func()) { calls = append(calls, f) }
+			for _, k := range strings.Split(pairName, "+") {
+				switch k {
+				case "Worker":
+					w := fun.Worker(func(context.Context) error { p.run(); return nil }).WithLock(mu)
+					add(func() { _ = w(ctx) })
+				case "Operation":
+					w := fun.Operation(func(context.Context) { p.run() }).WithLock(mu)
+					add(func() { w(ctx) })
+				case "Producer":
+					w := fun.Producer[int](func(context.Context) (int, error) { return p.run(), nil }).WithLock(mu)
+					add(func() { _, _ = w(ctx) })
+				case "Processor":
+					w := fun.Processor[int](func(context.Context, int) error { p.run(); return nil }).WithLock(mu)
+					add(func() { _ = w(ctx, 1) })
+				case "Handler":
+					w := fun.Handler[int](func(int) { p.run() }).WithLock(mu)
+					add(func() { w(1) })
+				case "Future":
+					w := fun.Future[int](func() int { return p.run() }).WithLock(mu)
+					add(func() { _ = w() })
+				case "Transform":
+					w := fun.Transform[int, int](func(context.Context, int) (int, error) { return p.run(), nil }).WithLock(mu)
+					add(func() { _, _ = w(ctx, 1) })
+				}
+			}
+			fin := make(chan struct{}, len(calls)*callers)
+			for _, c := range calls {
+				for i := 0; i < callers; i++ {
+					c := c
+					go func() { c(); fin <- struct{}{} }()
+				}
+			}
+			for i := 0; i < len(calls)*callers; i++ {
+				<-fin
+			}
+		}
+		check := func(e *vs.End) (string, string) {
+			if t, d := endTag(e); t != "" {
+				return t, d
+			}
+			if p.maxIn > 1 {
+				return "two-executions-at-once", fmt.Sprintf("WithLock(%s) over one mutex: %d executions in flight", pairName, p.maxIn)
+			}
+			return "", ""
+		}
+		return body, check
 	}
 }
 
@@ -516,10 +577,10 @@ func scripts(n int) [][]string {
 }
 
 func build(tier string) ([]runner.Instance, time.Duration) {
-	bound, budget := 2, 80*time.Second
-	maxCallers := 2
+	bound, budget := 3, 80*time.Second
+	maxCallers := 3
 	if tier == "thorough" {
-		bound, budget, maxCallers = 3, 14*time.Minute, 3
+		bound, budget, maxCallers = 5, 14*time.Minute, 4
 	}
 	var out []runner.Instance
 	add := func(group, name string, b int, sc vs.Scenario) {
@@ -542,6 +603,14 @@ func build(tier string) ([]runner.Instance, time.Duration) {
 	for _, w := range lockWrappers() {
 		for c := 2; c <= maxCallers+1; c++ {
 			add("lock/"+w.name, fmt.Sprintf("lock/%s/callers=%d", w.name, c), bound, concurrent(w, "lock", 0, c, 1))
+		}
+	}
+	for _, pn := range []string{"Worker+Operation", "Producer+Processor", "Handler+Future", "Transform+Worker", "Operation+Future", "Processor+Handler"} {
+		for c := 1; c <= 2; c++ {
+			if c == 2 && tier != "thorough" && pn != "Worker+Operation" {
+				continue
+			}
+			add("shared-lock/"+pn, fmt.Sprintf("shared-lock/%s/callers=%d", pn, c), bound, sharedLock(pn, c))
 		}
 	}
 	for _, name := range []string{"Operation.Launch", "Operation.Signal", "Worker.Launch", "Worker.Signal", "Worker.Background", "Worker.StartGroup", "Operation.StartGroup", "Operation.Add", "Producer.Launch", "Processor.Background"} {
